@@ -109,6 +109,12 @@ class Script:
         return dict(tasks=self.ntasks, tiles=len(self.tiles), raw=raw, war=war, reader_groups_then_writer=groups, repeated_tile_tasks=rep,
                     nested_tasks=nested, dont_track_params=dont, nontrivial=bool(raw and war))
 
+    def task_writes(self, tid):
+        for op in self.ops:
+            if op[0] == 'task' and op[1]['id'] == tid:
+                return any(m != R and not fl & 1 for (g, m, fl) in op[1]['params'])
+        return False
+
     def digest(self):
         return hashlib.sha1(self.text().encode()).hexdigest()[:16]
 
@@ -317,13 +323,19 @@ def cfg_str(cfg):
     return ' '.join('%s=%s' % (k, cfg[k]) for k in sorted(cfg))
 
 
-def stall_class(bt, stuck=()):
+def stall_class(bt, stuck=(), script=None, cfg=None):
     """Stable key for a DTD stall from the gdb backtraces of all ranks and the harness's own stuck reports."""
     bt = bt or ''
     has = lambda name: re.search(r'\b%s\b' % name, bt) is not None
     if has('made_sure_nextinline_is_null'): return 'dtd:stall:made_sure_nextinline_is_null'
     if has('release_ownership_of_data'): return 'dtd:stall:release_ownership_of_data'
-    if any(o.get('retrying_prepare_input') for o in stuck): return 'dtd:stall:writer-again-livelock'
+    retry = set(i for o in stuck for i in (o.get('retrying_prepare_input') or []))
+    if retry:
+        # which tasks keep getting AGAIN from prepare_input?  -1 = runtime-inserted task (flush / first-out, both INOUT)
+        readers = [i for i in retry if i >= 0 and script is not None and not script.task_writes(i)]
+        if readers: return 'dtd:stall:reader-gets-again-for-ever'
+        if (cfg or {}).get('sched') in ('ll', 'llp', 'ip'): return 'dtd:stall:writer-again-livelock:lifo-or-inverse-priority-scheduler'
+        return 'dtd:stall:writer-again-never-satisfied'
     if has('parsec_execute_and_come_back') and has('body_common'): return 'dtd:stall:inserting-task-blocked-by-window'
     if has('parsec_execute_and_come_back'): return 'dtd:stall:window-blocked-inserter'
     if has('parsec_taskpool_wait') or has('parsec_context_wait'): return 'dtd:stall:wait-never-returns'
@@ -381,6 +393,8 @@ class Campaign:
     def _one(self, job):
         ctx = self.ctx
         s, cfg = job['script'], job['cfg']
+        if len(ctx.violations) >= 3:          # the verdict is settled (exit 1): do not spend the budget on more witnesses
+            job['status'] = 'skipped'; return job
         self.n += 1
         tag = '%s%04d' % (job.get('kind', 'c'), job['idx'])
         ranks = cfg.get('ranks', 1)
@@ -398,7 +412,7 @@ class Campaign:
         if r.stalled:
             r2 = runner()
             if r2.stalled:
-                cls = stall_class(r2.backtraces or r.backtraces, r2.of('stuck') + r.of('stuck'))
+                cls = stall_class(r2.backtraces or r.backtraces, r2.of('stuck') + r.of('stuck'), s, cfg)
                 if feature: cls = cls.replace('dtd:stall', 'stall')
                 key = (feature + ':' if feature else '') + (job.get('stall_key') or cls)
                 v = ctx.violation(key, '%s made no progress twice (no task executed during the stall window); blocked frames class: %s; %s' % (what, cls, _stuck_lines(r2)), r2, {'script.txt': txt})
